@@ -73,13 +73,16 @@ def replay_layout(pyhf, backend, precision, chunk, seed):
             out["findings"].append(("C08", key, detail, tags))
     pyhf.set_backend(backend, "scipy", precision=precision)
     spec = nuis_spec()
+    # ONE model object per worker serves every case (different observations, flags, calculators in turn): a result must not
+    # depend on what was computed earlier on the same model (stale per-model caches of fits or Asimov data would show here)
+    shared = {True: pyhf.Model(spec, poi_name="mu"), False: pyhf.Model(spec, poi_name=None)}
     for ci, line in enumerate(chunk):
         case = json.loads(line)
         out["n"] += 1
         kind, calc, ntoys = case["kind"], case["calc"], case["ntoys"]
         flags = dict(return_tail_probs=case["tail"], return_expected=case["exp"], return_expected_set=case["expset"],
                      return_calculator=case["calcflag"])
-        model = pyhf.Model(spec, poi_name="mu" if case["has_poi"] else None)
+        model = shared[bool(case["has_poi"])]
         cfg = model.config
         obs = [58.0 + (ci % 3), 61.0 - (ci % 2)]
         data = obs + list(cfg.auxdata)
